@@ -31,8 +31,8 @@ Definition called_eqb (a b : called) : bool :=
 (* the balancer may pick any configured host: the model is run with the host that was used *)
 Definition call_matches (hosts : list string) (path : string) (q : values) (o : option called) : bool :=
   match o with
-  | Some c => str_mem (o_host c) hosts && opt_eqb called_eqb (assemble (o_host c) path q) (Some c)
-  | None => forallb (fun h => is_none (assemble h path q)) hosts
+  | Some c => str_mem (o_host c) hosts && opt_eqb called_eqb (assemble_glue (o_host c) path q) (Some c)
+  | None => forallb (fun h => is_none (assemble_glue h path q)) hosts
   end.
 
 (* QueryEscape, QueryUnescape, PathUnescape, URL{Path}.EscapedPath, QueryUnescape(QueryEscape) *)
